@@ -14,8 +14,13 @@ Record obs := mkObs {
 Inductive case :=
 | CBook (evs : list event) (depth : N) (observed : list obs)
     (* events applied one by one to OrderBook::default(); observation after each *)
-| CSide (s : side) (init ups result : list (Z * Z)).
+| CSide (s : side) (init ups result : list (Z * Z))
     (* OrderBookSide::{bids,asks}(init) then .upsert(ups) ; result = levels() *)
+| CBookPanic (evs : list event) (depth : N)
+| CSidePanic (s : side) (init ups : list (Z * Z)).
+    (* the implementation panicked while applying the events / the depth-limited snapshot
+       (the only panic the model knows, vw-mid with nothing to weigh by, is observed
+       separately as [OVwPanic]) *)
 
 Definition scale : Q := inject_Z (10 ^ 8).
 Definition level_eqb := pair_eqb Z.eqb Z.eqb.
@@ -47,13 +52,15 @@ Fixpoint corr_run (d : nat) (b : book) (evs : list event) (os : list obs) : bool
 Definition wf_case (c : case) : bool :=
   match c with
   | CBook evs _ _ => forallb wf_event evs
-  | CSide _ init _ _ => nodup_prices init
+  | CSide _ init _ _ | CSidePanic _ init _ => nodup_prices init
+  | CBookPanic evs _ => forallb wf_event evs
   end.
 
 Definition corr_b (c : case) : bool :=
   match c with
   | CBook evs d os => corr_run (N.to_nat d) empty_book evs os
   | CSide s init ups res => levels_eqb (upsert s (sort_levels s init) ups) res
+  | CBookPanic _ _ | CSidePanic _ _ _ => false
   end.
 
 (* ---- oracle --------------------------------------------------------------------------- *)
@@ -110,6 +117,7 @@ Definition prop_b (c : case) : bool :=
       prop_run (N.to_nat d) (flat_map ev_prices evs) (abs_book empty_book) evs os
   | CSide s init ups res =>
       side_is_map s (map fst init ++ map fst ups) (spec_upsert (lookup init) ups) res
+  | CBookPanic _ _ | CSidePanic _ _ _ => false   (* a book that panicked holds no levels at all *)
   end.
 
 (** cases outside the property's input requirement (a snapshot listing a price twice) are
